@@ -20,9 +20,9 @@ PROPERTY = "C17"
 RULE = (
     "explicit-state BFS over public-operation histories: start states {configured ML machine, ML machine with per-component "
     "floors, MAP machine adapted from a prior, machine restored from HDF5} x every sequence of <= depth operations from a "
-    "menu of 31 (5 weight assignments incl. a list and a pruned component, 2 mean arrays, 3 variance arrays (some below the floors), 6 floor "
+    "menu of 33 (5 weight assignments incl. a list and a pruned component, 2 mean arrays, 3 variance arrays (some below the floors), 6 floor "
     "assignments (scalar low/high, per-feature, per-component low/high, default), 8 single EM steps (one per switch set), "
-    "deepcopy, pickle, HDF5 save->from_hdf5, load into self, one fit with 2 steps, training / re-configuring a shallow copy); states de-duplicated by the full object "
+    "deepcopy, pickle, HDF5 save->from_hdf5, load into self, one fit with 2 steps, training / re-configuring a shallow copy, handing the parameter arrays to another machine with higher floors, raising the floors of the prior afterwards); states de-duplicated by the full object "
     "state; the invariant is evaluated on every transition. A case (start, first op) is non-trivial when its search reached "
     ">= 2 distinct states; distinct = distinct (start, first op)"
 )
@@ -39,7 +39,7 @@ OPS = (
     + [("var", i) for i in range(3)]
     + [("floor", i) for i in range(6)]
     + [("em", i) for i in range(8)]
-    + [("deepcopy", 0), ("pickle", 0), ("hdf5", 0), ("load", 0), ("fit2", 0), ("sibling", 0), ("sibling", 1)]
+    + [("deepcopy", 0), ("pickle", 0), ("hdf5", 0), ("load", 0), ("fit2", 0), ("sibling", 0), ("sibling", 1), ("sibling", 2), ("ubm_floor", 0)]
 )
 STARTS = ["ml", "ml_matrix_floor", "map", "restored"]
 
@@ -118,10 +118,24 @@ class _Apply:
                 sib.update_means, sib.update_variances, sib.update_weights = True, True, True
                 sib.max_fitting_steps = 1
                 sib.fit(X.copy())
-            else:
+            elif i == 1:
                 sib.variance_thresholds = copy.deepcopy(FL[4])
                 sib.variances = VAR[1].copy()
                 sib.weights = W[1].copy()
+            else:
+                # the machine's parameters are handed (the very arrays the getters return) to another machine with higher floors
+                other = GMMMachine(2)
+                other.variance_thresholds = copy.deepcopy(FL[4])
+                other.means = m.means
+                other.variances = m.variances
+                other.weights = m.weights
+                other.update_means, other.update_variances, other.update_weights = True, True, True
+                other.max_fitting_steps = 1
+                other.fit(X.copy())
+        elif kind == "ubm_floor":
+            # the prior of a MAP machine gets higher floors afterwards: the machine's own floors and variances stay its own
+            if m.ubm is not None:
+                m.ubm.variance_thresholds = copy.deepcopy(FL[1])
         elif kind == "deepcopy":
             m = copy.deepcopy(m)
         elif kind == "pickle":
